@@ -28,6 +28,8 @@ import EsbuildModel.Impl.Fold
 import EsbuildModel.Impl.PrecDriver
 import EsbuildModel.Impl.Decoders
 import EsbuildModel.Impl.CssBox
+import EsbuildModel.Impl.MiniJS
+import EsbuildModel.Impl.WatchDriver
 
 open EsbuildModel
 
@@ -64,6 +66,8 @@ def dispatch (kernel : String) (args : List String) : String :=
   | "prec" => Prec.driver args
   | "decoders" => Decoders.driver args
   | "cssbox" => CssBox.driver args
+  | "minijs" => MiniJS.driver args
+  | "watch" => Watch.driver args
   | _ => "bad-kernel"
 
 partial def loop (hin hout : IO.FS.Stream) : IO Unit := do
